@@ -25,90 +25,10 @@ type responsesSpec struct {
 	NoEcho map[string]string `json:"no_echo"`
 }
 
-// serialGenerator: the counter field is only touched through Load() and Add(1) and curSeq returns Add(1)-1 truncated to uint16.
-func (c *Ctx) serialGeneratorRule() {
-	R := c.R
-	nUse, ok, d := 0, true, ""
-	var gen *ssa.Function
-	for _, fn := range c.RepoFuncs("service") {
-		for _, b := range fn.Blocks {
-			for _, ins := range b.Instrs {
-				fa, isFA := ins.(*ssa.FieldAddr)
-				if !isFA {
-					continue
-				}
-				n, isN := derefNamed(fa.X.Type())
-				if !isN || n != "connection" {
-					continue
-				}
-				st := fa.X.Type().Underlying().(*types.Pointer).Elem().Underlying().(*types.Struct)
-				if st.Field(fa.Field).Name() != "platformSerialNumber" {
-					continue
-				}
-				if al, isAl := fa.X.(*ssa.Alloc); isAl && al.Parent() == fn {
-					continue
-				}
-				for _, ref := range *fa.Referrers() {
-					nUse++
-					call, isCall := ref.(*ssa.Call)
-					if !isCall {
-						if _, dbg := ref.(*ssa.DebugRef); dbg {
-							nUse--
-							continue
-						}
-						ok = false
-						d = fmt.Sprintf("the serial counter is accessed by %T at %s (only atomic Load / Add(1) are allowed)", ref, c.P.RelPos(ref.Pos()))
-						continue
-					}
-					name := calleeName(&call.Call)
-					switch {
-					case strings.HasSuffix(name, ".Load"):
-					case strings.HasSuffix(name, ".Add"):
-						if k, isK := constInt(call.Call.Args[1]); !isK || k != 1 {
-							ok = false
-							d = "the serial counter is advanced by something other than the constant 1 at " + c.P.RelPos(call.Pos())
-						}
-						if gen != nil && gen != fn {
-							ok = false
-							d = "the serial counter is advanced in more than one function"
-						}
-						gen = fn
-						// result must flow: Add(1) - 1 → uint16 → return
-						good := false
-						for _, r2 := range *call.Referrers() {
-							if bo, isBo := r2.(*ssa.BinOp); isBo && bo.Op == token.SUB {
-								if k, isK := constInt(bo.Y); isK && k == 1 {
-									good = true
-								}
-							}
-						}
-						if !good {
-							ok = false
-							d = "the generator does not return the value the counter had before the increment (Add(1)-1)"
-						}
-					default:
-						ok = false
-						d = fmt.Sprintf("the serial counter is modified through %s at %s", name, c.P.RelPos(call.Pos()))
-					}
-				}
-			}
-		}
-	}
-	if nUse == 0 || gen == nil {
-		ok, d = false, "no serial generator over connection.platformSerialNumber found (anchor)"
-	}
-	st := report.Discharged
-	if !ok {
-		st = report.Violated
-	}
-	R.Add("E6.serial", "connection.platformSerialNumber / only the generator advances it, by exactly 1, returning the old value (uint16 wrap is the type's)", "", st, d)
-}
-
 func runC12(c *Ctx) {
 	c.E1Rules()
 	c.E1Assumptions()
 	R := c.R
-	R.Rules["E6.serial"] = "platform serials come from one generator that returns the old counter value and adds exactly 1"
 	R.Rules["E3.command"] = "a command is stamped with a fresh serial, recorded in the outstanding map under that same serial, encoded with it and written exactly once; the timeout message carries the same serial"
 	R.Rules["E6.predicate"] = "each response type is correlated by comparing the candidate serial with the field of the parsed response that echoes the platform serial (a predicate that ignores its argument completes another caller's request); 0x1003, which echoes nothing, may only complete an outstanding 0x9003"
 	R.Rules["E3.field"] = "the echoed-serial field of each response type is read from the wire at the standard's offset"
@@ -118,7 +38,7 @@ func runC12(c *Ctx) {
 	if !c.loadSpec("responses.json", &spec) {
 		return
 	}
-	c.serialGeneratorRule()
+	c.serialSequenceRule("E6.serial")
 	onActive := c.P.Method("service", "connection", "onActiveEvent")
 	onResp := c.P.Method("service", "connection", "onActiveRespondEvent")
 	writeFn := c.P.Method("service", "connection", "write")
